@@ -446,14 +446,16 @@ func where(root *pktgen.Node, p int) string {
 // signer. prevBuilt: the last packet each signer object signed, kept as the un-joined Wire the API
 // returned; it is joined, decoded and validated only after the same object signed the next packet.
 var (
-	pool      = pktgen.NewSignerPool()
-	prevBuilt = map[int]*heldPacket{}
+	pool       = pktgen.NewSignerPool()
+	prevBuilt  = map[int]*heldPacket{}
+	olderBuilt = map[int]*heldPacket{} // the packet each signer object signed before prevBuilt's
 )
 
 type heldPacket struct {
 	b       *pktgen.Built
 	label   string
 	validOK bool // the validator accepted it right after it was built
+	covOK   bool // Encoded*.SigCovered held the bytes the signer was handed right after it was built
 	damaged bool // another check already found (and reported) that its wire was modified
 }
 
@@ -463,8 +465,27 @@ func delayedVerify(cc *caseCtx, cur *pktgen.Built) {
 	}
 	si := cur.Desc.Signer
 	prev := prevBuilt[si]
+	older := olderBuilt[si]
 	cc.held = &heldPacket{b: cur, label: cc.label}
+	cc.held.covOK = cur.Err == nil && bytes.Equal(cur.SigCov.Join(), cur.Rec.Covered) // else: reported by its own case
 	prevBuilt[si] = cc.held
+	olderBuilt[si] = prev
+	if older != nil && !older.damaged && (prev == nil || !prev.damaged) {
+		// the packet before the previous one: two later packets were signed by the same object since
+		// (a signer that alternates between two scratch buffers only shows here)
+		cc.stat["delayed_verifications_two_packets_later"]++
+		ob := older.b
+		if late := ob.Wire.Join(); !bytes.Equal(late, ob.Bytes) {
+			older.damaged = true
+			cc.violRaw("C12.cover", "bytes of an earlier Encoded"+kind(ob.Desc)+".Wire change when the same signer object signs the second packet after it ("+ob.SignerSp.Family+")",
+				fmt.Sprintf("%s signed by one %s signer object, then %s and %s by the same object: the first packet's un-joined Wire now joins to different bytes", older.label, ob.SignerSp.Name, prev.label, cc.label),
+				map[string]any{"case": older.label, "desc": ob.Desc.String(), "next_case": cc.label, "bytes": hexCap(ob.Bytes)})
+		} else if ob.Err == nil && !bytes.Equal(ob.SigCov.Join(), ob.Rec.Covered) {
+			older.damaged = true
+			cc.violRaw("C12.cover", "an earlier Encoded"+kind(ob.Desc)+".SigCovered no longer holds the bytes its signer was handed once the same signer object signed two more packets ("+ob.SignerSp.Family+")",
+				older.label+" then "+prev.label+" then "+cc.label, map[string]any{"case": older.label, "desc": ob.Desc.String(), "next_case": cc.label, "bytes": hexCap(ob.Bytes)})
+		}
+	}
 	if prev == nil || prev.damaged {
 		return
 	}
@@ -476,6 +497,10 @@ func delayedVerify(cc *caseCtx, cur *pktgen.Built) {
 	if !bytes.Equal(late, pb.Bytes) {
 		cc.violRaw("C12.cover", "bytes of an earlier Encoded"+kind(pb.Desc)+".Wire change when the same signer object signs the next packet ("+pb.SignerSp.Family+")",
 			fmt.Sprintf("%s signed by one %s signer object, then %s signed by the same object: the first packet's un-joined Wire now joins to different bytes", prev.label, mode, cc.label), extra)
+	}
+	if pb.Err == nil && prev.covOK && !bytes.Equal(pb.SigCov.Join(), pb.Rec.Covered) {
+		cc.violRaw("C12.cover", "an earlier Encoded"+kind(pb.Desc)+".SigCovered no longer holds the bytes its signer was handed once the same signer object signed the next packet ("+pb.SignerSp.Family+")",
+			fmt.Sprintf("%s signed by one %s signer object, then %s by the same object: the SigCovered wire returned with the first packet (kept by reference) now joins to other bytes", prev.label, mode, cc.label), extra)
 	}
 	if !prev.validOK {
 		return // it did not decode/verify even before the next packet was signed: reported by its own case
@@ -1477,9 +1502,26 @@ func historyMain() {
 			if failedSince {
 				pred = "a FAILED signing call of a " + fam + " signer (no successful signing call since)"
 			}
-			d := pktgen.Desc{Interest: y.interest, Name: two, PaySize: 3, Signer: y.mode}
+			// the packets of one sequence differ (call i has i extra name components): two calls of the
+			// same deterministic signer mode sign different bytes
+			nm := append([]pktgen.Comp{}, two...)
+			for k := 0; k < i; k++ {
+				nm = append(nm, pktgen.Comp{Typ: 8, Len: 3 + k})
+			}
+			d := pktgen.Desc{Interest: y.interest, Name: nm, PaySize: 3, Signer: y.mode}
 			b := pktgen.BuildWith(&d, pool)
 			stat["history_calls"]++
+			// every earlier packet of the sequence, held as the API returned it, re-read after THIS call
+			// (successful, failed or refused)
+			if i < len(syms)-1 {
+				kept := done[:0]
+				for _, x := range done {
+					if check(fam, seq, x, "once the next call was made") {
+						kept = append(kept, x)
+					}
+				}
+				done = kept
+			}
 			this := ""
 			switch {
 			case b.Panic != "":
@@ -1859,9 +1901,9 @@ func main() {
 			"key_material":         fmt.Sprintf("besides the default keys: HMAC keys of %v bytes (around the SHA-256 digest and block sizes) for the Data and the Interest HMAC signer, a second ECDSA P-256 key and a second RSA-2048 key, each on the four base shapes (all clauses incl. every-bit tampering)", pktgen.HmacKeyLens),
 			"ecdsa_length_classes": fmt.Sprintf("every ECDSA signer mode (P-224, P-256 x2 keys incl. cert/int modes, P-384, P-521) x the signed base shapes the API builds for it: built and signed until the longest DER signature of the curve (computed by the harness from X.690: 64/72/104/139 bytes) and the two next shorter lengths were seen, or %d builds; every build must succeed (a signature longer than the signer's own EstimateSize is a C12.accept violation), decode, cover and verify; crypto/rand-driven repetition (the signers hard-wire rand.Reader), not an enumeration; lengths under observed.ecdsa_signature_lengths_built_and_verified, a case that never saw the longest class is counted in ecdsa_length_class_cases_capped_longest_class_not_seen and makes the run non-exhaustive", lenClassTries),
 			"outer_length_sweep":   "4 base shapes x every ECDSA mode x payload sizes putting the ESTIMATED outer length on 250..258 and 65533..65540; each case built until 3 different signature lengths were seen or 24 builds; cover+accept on every build (counters sweep_*)",
-			"signer_histories":     "per signer family (sha256, hmac, ecdsa, rsa): every ordered pair of signing calls over all modes of the family (incl. key variants and the RSA-384 signers whose every signing call fails) x {Data, Interest}, with one signer object per mode and with a fresh object per call, plus every triple with one failing call first or in the middle; each built packet checked (decode, cover, validator) right after signing and after the sequence; single-threaded, GC off inside a sequence",
+			"signer_histories":     "per signer family (sha256, hmac, ecdsa, rsa): every ordered pair of signing calls over all modes of the family (incl. key variants and the RSA-384 signers whose every signing call fails) x {Data, Interest}, with one signer object per mode and with a fresh object per call, plus every triple with one failing call first or in the middle; the packets of a sequence differ (call i has i extra name components); each built packet is kept as returned (Wire and SigCovered by reference) and checked (bytes, decode, cover, validator) right after signing, after every later call of the sequence and after the sequence; single-threaded, GC off inside a sequence",
 			"context_reuse":        "one spec.PacketParsingContext per worker parses every signed packet (Init; Parse): its SigCovered must equal the signer's input, and the wire it returned for the previous packet must be unchanged and still verify after Init + Parse of the current packet",
-			"delayed_verification": "each worker keeps ONE signer object per mode; the un-joined Wire of the previous packet a signer object signed is joined, decoded, compared with what the signer was handed and validated only after the same object signed the next packet",
+			"delayed_verification": "each worker keeps ONE signer object per mode; the un-joined Wire of the previous packet a signer object signed is joined, decoded, compared with what the signer was handed and validated only after the same object signed the next packet; its Encoded*.SigCovered (kept by reference) must still hold the bytes the signer was handed; the packet before that one is re-read (bytes, SigCovered) after the second later packet",
 			"segmentation":         "C12.cover: every 1-cut (packets >1200 B: cuts within 2 bytes of element offsets), every 2-cut for packets <=100 B (thorough, <=1 deviation: <=400 B) else all pairs of element offsets, every 3-cut for packets <=56 B (thorough, <=1 deviation: <=112 B) else outer-header-end + every pair of element offsets (quick tier, deviated shapes: pairs at most 3 offsets apart)",
 			"entry_points":         "every decode goes through " + strings.Join(entryNames[:], "; ") + ". The engine is a real std/engine/basic.Engine on a harness face driven synchronously (root Interest handler; for Data a pending CanBePrefix Interest for the shortest name prefix not ending in an implicit-digest component, re-expressed when consumed); engine entry points are not applicable to Data without such a prefix and to names with a component over " + strconv.Itoa(engineMaxComp) + " bytes (counter cases_engine_entry_points_not_applicable). C12.cover/accept: every entry point from contiguous bytes and from every 1-cut (engine entry points on shapes other than the following: cuts within 1 byte of an element offset; base shapes, thorough: <=1-deviation shapes: also every pair of element offsets); sweep / length-class builds: every entry point from contiguous bytes",
 			"tamper_decode_paths":  "reader forms: contiguous bytes, 2 segments cut (a) in the middle and (b) right before the ApplicationParameters (Interest) / SignatureInfo (Data) element. Every flipped packet of a base shape (thorough: of every <=1-deviation shape) goes through every entry point x every reader form (LpPacket with Fragment only: contiguous); flipped packets of the other shapes go through Spec.ReadInterest/ReadData x every reader form and spec.ReadPacket from contiguous bytes; accepted by any probe counts as accepted",
